@@ -786,6 +786,22 @@ def rewrite(toks, pat_text, repl_text, count, unit_line, log, what, nth=None):
     return out
 
 
+def slice_item(toks, pat_text, repl_text, unit_line, log, what):
+    """R15 (deep form): the pattern must match exactly once anywhere inside the item (at any nesting depth); the WHOLE item is
+    replaced by the instantiated replacement (a function made of the captured statements)."""
+    pat = Pat(pat_text)
+    ms = find_matches(pat, toks)
+    if len(ms) != 1:
+        raise Maintenance('%s: slice pattern `%s` matched %d time(s), expected 1 (unit line %d)' % (
+            what, ' '.join(pat_text.split())[:400], len(ms), unit_line))
+    (s, e, caps) = ms[0]
+    rep = instantiate(repl_text, caps, unit_line)
+    if rep:
+        rep[0].ws = toks[0].ws
+    log.append((what, toks[s].file, toks[s].line, 'slice `%s` -> `%s`' % (' '.join(render(toks[s:e]).split())[:160], ' '.join(render(rep).split())[:160])))
+    return rep
+
+
 # --------------------------------------------------------------------------- function splitting helpers
 
 def fn_parts(toks):
